@@ -103,6 +103,9 @@ def run_case(case):
             else:
                 array = [v for v, _ in vals]
             cur = [min(op["cursor"][0], h - 1), min(op["cursor"][1], w - 1)]
+            if op.get("omit_cursor"):
+                cur = [0, 0]  # cursor_pos not given: the documented default (0, 0), whatever earlier renders passed
+                res.label("cursor_pos_omitted")
             if prev_rows is not None and prev_rows != rows_cells:
                 res.nontrivial = True
                 if [[c[0] for c in r] for r in prev_rows] == [[c[0] for c in r] for r in rows_cells]:
@@ -122,7 +125,7 @@ def run_case(case):
             form = (step + len(rows_cells)) % 4
             if form == 1 and isinstance(array, list) and not case.get("reuse"):
                 array = tuple(array)  # any sequence of lines
-            _, e = call(lambda: win.render_to_terminal(array, tuple(cur)) if form in (0, 1) else win.render_to_terminal(array, cursor_pos=tuple(cur))
+            _, e = call(lambda: win.render_to_terminal(array) if op.get("omit_cursor") else win.render_to_terminal(array, tuple(cur)) if form in (0, 1) else win.render_to_terminal(array, cursor_pos=tuple(cur))
                         if form == 2 else win.render_to_terminal(array=array, cursor_pos=list(cur)))
             ctx = dict(step=step, h=h, w=w, rows=[show(r) for r in rows_cells][:8], case=case)
             if e is not None:
@@ -233,7 +236,8 @@ def history(draw):
         if same_cursor and last_cur is not None and last_cur[0] < h and last_cur[1] < w:
             cur = last_cur
         last_cur = cur
-        case["steps"].append({"op": "render", "rows": rows, "as": draw(st.sampled_from(["list", "list", "fsarray", "fsarray_setitem"])), "declared_width": draw(st.integers(0, 9)), "cursor": cur})
+        case["steps"].append({"op": "render", "rows": rows, "as": draw(st.sampled_from(["list", "list", "fsarray", "fsarray_setitem"])), "declared_width": draw(st.integers(0, 9)), "cursor": cur,
+                              "omit_cursor": draw(st.sampled_from([False, False, False, False, True]))})
         prev = rows
     return case
 
